@@ -293,10 +293,14 @@ impl<F: Read + Write + Seek> Flusher<F> for FlushBuffer {
             stream.buf_offset_from_start,
             stream.buffer.filled_slice(),
         )?;
-        // The directory entry has the last word on the length: it is longer
-        // than this handle thinks if another handle has grown the stream.
-        stream.total_len =
+        // Another handle may have changed the stream's length in the
+        // meantime.  If it is longer now, this handle sees that from here
+        // on; if it is shorter, this handle keeps its own view (its position
+        // and buffer window are tied to it), and writing back beyond the
+        // entry's length is refused by write_data_to_stream.
+        let entry_len =
             minialloc.read().unwrap().dir_entry(stream.stream_id).stream_len;
+        stream.total_len = stream.total_len.max(entry_len);
         Ok(())
     }
 }
@@ -474,8 +478,7 @@ fn resize_stream<F: Read + Write + Seek>(
     };
     // No file can hold more than MAX_REGULAR_SECTOR sectors; refusing larger
     // lengths up front also keeps the sector arithmetic below from overflowing.
-    let max_stream_len =
-        consts::MAX_REGULAR_SECTOR as u64
+    let max_stream_len = consts::MAX_REGULAR_SECTOR as u64
         * minialloc.version().sector_len() as u64;
     if new_stream_len > max_stream_len {
         invalid_input!(
